@@ -568,11 +568,20 @@ def next_rules(ctx, R41, R42, R43, R44, R45, R35, R36, want_c03=True, want_c04=T
                 okk = key is not None and any(x[0] == 'after' and is_call(x[1], '::push') for x in walk(key))
                 ctx.check(R35, okk, 'emit-key', 'the emitted key is not the key buffer including the byte just appended', fn=f, at=at)
             if want_c04:
-                im = [d for d in p.decisions if is_call(d[2], 'Automaton::is_match')]
+                im = [d for d in p.decisions if is_call(d[2], 'Automaton::is_match') and d[0] > tr_calls[0][0]]       # (not the empty-key test earlier on the path)
                 okm = False
                 if im and im[-1][3] == 1:
                     arg = norm(im[-1][2][2][1])
                     okm = arg == ns or any(is_call(x, 'Automaton::accept_eof') and norm(x[2][1]) == ns for x in walk(arg))
+                if not im:
+                    # `accept_eof(&next).map_or(is_match(&next), |eof| is_match(&eof))`: one decision on the combined value
+                    mo = [d for d in p.decisions if (is_call(d[2], 'Option::<T>::map_or') or is_call(d[2], 'Option::<T>::map_or_else') or is_call(d[2], 'Option::<T>::is_some_and')) and
+                          any(is_call(x, 'Automaton::accept_eof') and norm(x[2][1]) == ns for x in walk(d[2]))]
+                    if mo and mo[-1][3] == 1:
+                        inner = [x for x in walk(mo[-1][2]) if is_call(x, 'Automaton::is_match')]
+                        clos = [x for x in walk(mo[-1][2]) if x[0] == 'closure' and x[1] in lib.fns and any((lib.fns[x[1]].callee_decl(t) or '').endswith('Automaton::is_match') for _, t in lib.fns[x[1]].calls())]
+                        okm = bool(clos) and (not inner or all(norm(x[2][1]) == ns for x in inner))
+                        im = mo
                 ctx.check(R43, bool(okm) and bool(okfin), 'emit-condition', 'a key must be emitted iff the node reached is final AND is_match(state after the key\'s last byte): finality=%s is_match=%s' % (
                     bool(okfin), [fmt(d[2][2][1])[:70] + '=' + str(d[3]) for d in im]), fn=f, at=at)
                 okmap = mapped is not None and is_call(mapped, 'call_mut') and ns is not None and any(norm(x) == ns for x in walk(mapped))
